@@ -246,6 +246,87 @@ CHECK_DEADLOCK FALSE
     rep.notes["design_layer_negative_controls"] = neg
 
 
+EDGE_CFG = {
+    # event-rich instance (C02 / C04): 361 store contents, ~13 000 transitions
+    "events": """CONSTANTS
+  Buckets = {"A", "B"}
+  Ticks = {0, 1}
+  Durs = {0}
+  Datas = {"d1"}
+  Ids = {0, 1}
+  Strs = {"s1"}
+  MDatas = {"m0", "m1"}
+  MaxEvs = 2
+  Metas <- MetasE
+  Fields <- FieldsE
+  Ops <- MCOps
+SPECIFICATION ESpec
+VIEW EView
+ACTION_CONSTRAINT PrintEdge
+CHECK_DEADLOCK FALSE
+""",
+    # metadata-rich instance (C05): one bucket id through every combination of creation metadata, updates, deletion, re-creation
+    "lifecycle": """CONSTANTS
+  Buckets = {"A"}
+  Ticks = {0, 1}
+  Durs = {0}
+  Datas = {"d1"}
+  Ids = {0}
+  Strs = {"s1", "s2"}
+  MDatas = {"m0", "m1"}
+  MaxEvs = 1
+  Metas <- MetasL
+  Fields <- FieldsL
+  Ops <- MCOps
+SPECIFICATION ESpec
+VIEW EView
+ACTION_CONSTRAINT PrintEdge
+CHECK_DEADLOCK FALSE
+""",
+}
+
+
+def model_edges(rep, profile, tier, seed):
+    """Every transition of a bounded AwStore instance, as TLC enumerates it, turned into a short history: build the
+    source state (create + inserts), then the operation.  quick replays a fifth of the event instance's edges (which
+    fifth rotates with the seed), thorough all of them."""
+    import json
+    import re
+    inst = "lifecycle" if profile == "lifecycle" else "events"
+    res = tlc.model_check("AwStoreEdges", EDGE_CFG[inst], workers=1, tag="edges_" + inst, heap="8g")
+    seen, hist = set(), []
+    for m in re.finditer(r'<<"EDGE",\s*"((?:[^"\\]|\\.)*)">>', res["out"]):
+        d = json.loads(json.loads('"' + m.group(1) + '"'))
+        o = dict(d["o"])
+        if o["op"] == "foreign":
+            if profile != "frame":
+                continue
+            o.pop("post", None)
+        key = json.dumps([d["s"], o], sort_keys=True)
+        if key in seen:
+            continue
+        seen.add(key)
+        ops = []
+        for b in sorted(d["s"]):
+            st = d["s"][b]
+            if not st["ex"]:
+                continue
+            meta = {k: st[k] for k in ("type", "client", "host", "name", "data", "created")}
+            ops.append({"op": "create", "b": b, "meta": meta, "nm": st["name"]})
+            for e in sorted(st["evs"], key=lambda x: x["id"]):
+                ops.append({"op": "insert", "b": b, "ev": e})
+        ops.append(o)
+        hist.append(ops)
+    if not hist:
+        raise tlc.TLCFailure("AwStoreEdges printed no edges:\n" + res["out"][-1500:])
+    total = len(hist)
+    if tier == "quick" and inst == "events":
+        hist = [h for i, h in enumerate(hist) if i % 5 == seed % 5]
+    rep.add_model(res, "AwStoreEdges (%s instance): complete state graph, %d distinct transitions printed as replayable edges, %d replayed in this run" % (inst, total, len(hist)))
+    rep.notes["model_edges"] = {"instance": inst, "transitions": total, "replayed": len(hist)}
+    return [("e%d" % i, store.restrict(store.from_model_ops(h), profile == "frame")) for i, h in enumerate(hist)]
+
+
 PROFILE = {"C02": "history", "C04": "frame", "C05": "lifecycle"}
 SIZES = {  # (tlc simulated behaviours, depth, random histories)
     "quick": (400, 14, 500),
@@ -380,6 +461,9 @@ def run(prop, tier, seed, replay=None):
         rep.notes["random_histories"] = nrand
     # ---- 3. run on the real backends
     runs = store.run_batch(behaviours, seed, backends=backends)
+    if replay is None:
+        # ... and one implementation test per transition of the bounded model (no batching: every edge is a judged step)
+        runs += store.run_batch(model_edges(rep, profile, tier, seed), seed + 7, backends=backends, batch_prob=0.0)
     if replay is None:
         # ... and the executions of the repository's own datastore tests, judged on full state instead of by their assertions
         recs, tail = repo_test_traces()
